@@ -138,6 +138,31 @@ def candidates(finfo, lines_of, diags_by_file):
     return out
 
 
+def nested_pairs(rng, finfo, diags_by_file):
+    """two cooperating comments: one above a declaration for the code of one diagnostic inside it, and one trailing the
+    line of ANOTHER diagnostic of the declaration (another category) that names both codes.  By the text both are gone."""
+    out = []
+    for f in sorted(finfo):
+        fi = finfo[f]
+        for decl in fi["Decls"] or []:
+            if not decl["StartsLine"]:
+                continue
+            ds = [d for d in diags_by_file.get(f, []) if decl["Start"] < d["line"] <= decl["End"]]
+            pairs = [(a, b) for a in ds for b in ds if a["line"] != b["line"] and category(a["code"]) != category(b["code"])
+                     and str(a["line"]) in fi["CodeLines"] and not fi["CommentEnd"].get(str(a["line"]), False)
+                     and not any(x["line"] == a["line"] and x is not a for x in ds)]
+            if pairs:
+                a, b = rng.choice(pairs)
+                wide = rng.choice([b["code"], category(b["code"]), b["code"].lower()])
+                outer = {"file": f, "before": decl["Start"], "scope_node": {"start": decl["Start"], "end": [decl["EndLine"], decl["EndCol"]], "kind": decl["Kind"]},
+                         "kind": "nested/outer-above-decl", "text": "// @ignore " + wide, "tokens": [wide.upper()], "codes_form": "nested-outer", "form_class": "nested",
+                         "target": [b["file"], b["line"], b["code"]]}
+                inner = {"file": f, "line": a["line"], "kind": "nested/inner-inline", "text": "// @ignore %s, %s" % (b["code"], a["code"]), "tokens": [b["code"], a["code"]],
+                         "codes_form": "nested-inner-shares-a-code", "form_class": "nested", "target": [a["file"], a["line"], a["code"]]}
+                out.append((outer, inner))
+    return out
+
+
 def plan_comments(rng, finfo, lines_of, diags_by_file, k, cover):
     """choose k placements for one world so that the (placement label, code category, code-list class) strata seen
     least often so far in this run are served first"""
@@ -149,6 +174,13 @@ def plan_comments(rng, finfo, lines_of, diags_by_file, k, cover):
     options.sort()
     out, used = [], set()
     file_level_used = set()
+    np_ = nested_pairs(rng, finfo, diags_by_file)
+    if np_:
+        outer, inner = rng.choice(np_)
+        out += [outer, inner]
+        used.add((outer["file"], None, outer["before"]))
+        used.add((inner["file"], inner["line"], None))
+        cover[(("nested", category(inner["target"][2])), "nested")] = cover.get((("nested", category(inner["target"][2])), "nested"), 0) + 1
     for _, _, st, cls in options:
         if len(out) >= k:
             break
@@ -404,7 +436,7 @@ def run(ctx):
                        "previous / second previous / next code line (incl. lines that only open or close a block), the func line and the last line of its declaration; standing alone above its "
                        "innermost statement, an enclosing statement, the next / previous sibling statement, its declaration, the next declaration; before the package clause of its file or of "
                        "another file of the package. Code lists: exact, sibling code, category, ALL, unknown, wrong category, lower / mixed case, several, trailing text / comma / slashes, tab, "
-                       "no blank after //, and malformed forms that must have no effect. Per configuration (default, scan-tests): (B) binary = Coq model on the commented program by (file, line, "
+                       "no blank after //, and malformed forms that must have no effect; per world one nested pair (a comment above a declaration for one code, and a comment inside it that repeats that code and names the code of another diagnostic). Per configuration (default, scan-tests): (B) binary = Coq model on the commented program by (file, line, "
                        "code); (C) binary on the commented program = binary on the comment-free program minus the matching diagnostics inside the documented scope (positions from go/parser), "
                        "TONL01/PKGO01 allowed to move to a later use. evaluations = comments x configurations; non-trivial = comments with an effective code list" % (n, per_world))
     rep.cov["input_distribution"] = dist
